@@ -48,8 +48,10 @@ ASSUMPTIONS = [
     "drift: deferred query expressions and backend-specific overrides of convert_condition_* are not exercised (TextQueryBackend as is)",
 ]
 
-FIELDS = ["f", "g", "h_1", "field name"]
-STRS = ["abc", "a*", "*b", "*c*", "a?c", "a\\*b", "x y", "A", "*a*b*", "**", "a\\\\", "*", "a\\?b", "\\?x*"]
+FIELDS = ["f", "g", "h_1", "field name", "'lead", "it's", "\\b.c"]      # incl. the quote / escape character of the target as first and inner character
+STRS = ["abc", "a*", "*b", "*c*", "a?c", "a\\*b", "x y", "A", "*a*b*", "**", "a\\\\", "*", "a\\?b", "\\?x*",
+        # characters that are operators in a regular expression (values rendered through a `{regex}` template must keep them literal)
+        "a|b", "x.(y)+[z]{2}^$", "c:\\\\d+", "a|b*"]
 
 
 def gen_item(rnd):
@@ -67,12 +69,12 @@ def gen_item(rnd):
         return f, rnd.choice([True, False, None, []])
     if r < 0.50:
         m = rnd.choice(["contains", "startswith", "endswith", "contains|all", "endswith|all", "startswith|cased", "contains|cased", "cased|contains"])
-        v = rnd.choice(["ab", "a*b", "*x", "y*", ["a", "b"], ["p", "q*", "r"]])
+        v = rnd.choice(["ab", "a*b", "*x", "y*", ["a", "b"], ["p", "q*", "r"], s()])
         return f + "|" + m, v
     if r < 0.57:
-        return f + "|cased", rnd.choice(["Ab", ["a", "B"], "a*", ["x", "y", "z"]])
+        return f + "|cased", rnd.choice(["Ab", ["a", "B"], "a*", ["x", "y", "z"], s(), s(), [s(), s()]])
     if r < 0.63:
-        return f + "|" + rnd.choice(["re", "re|i", "re|m|s", "re|contains"]), rnd.choice(["a.*b", "^x$", "a/b", "c\\\\d", ["p+", "q?"]])
+        return f + "|" + rnd.choice(["re", "re|i", "re|m|s", "re|contains", "re|dotall", "re|ignorecase|multiline", "re|s", "re|m"]), rnd.choice(["a.*b", "^x$", "a/b", "c\\\\d", ["p+", "q?"]])
     if r < 0.70:
         return "ip|cidr", rnd.choice(["10.0.0.0/7", "10.1.0.0/16", "192.168.1.1/32", "10.64.0.0/10", ["10.0.0.0/8", "172.16.0.0/15"], "0.0.0.0/0"])
     if r < 0.75:
@@ -135,6 +137,8 @@ def gen_cfg(rnd):
          "swSpecial": rnd.random() < 0.3, "ewSpecial": rnd.random() < 0.3, "ctSpecial": rnd.random() < 0.3,
          "cased": rnd.choice(["all", "all", "match", "none"]), "explicitNotExists": rnd.random() < 0.5, "nativeCidr": rnd.random() < 0.5}
     c["prec"] = list(c["prec"])
+    # a target without case-sensitive string operator: cased values go through the `{regex}` template variable
+    c["casedRegex"] = c["cased"] != "none" and rnd.random() < 0.4
     return c
 
 
@@ -540,7 +544,7 @@ def judge_sem(case, impl, reply):
                            nt, key, finding=fid, tags=tuple(tags))
         tags.append(f"atoms:{min(r['natoms'], 9)}")
         if " in " in q or "[in " in q: tags.append("inlist")
-        for k in ("[sw ", "[ew ", "[ct ", "[wm ", "[csw", "[ncs", "[nex", "[cidr"):
+        for k in ("[sw ", "[ew ", "[ct ", "[wm ", "[csw", "[ncs", "[nex", "[cidr", "[cre"):
             if k in q: tags.append("op:" + k.strip("[ "))
     return Verdict("ok", "", nt, key, tags=tuple(tags))
 
